@@ -346,6 +346,7 @@ func c01Execute(sc *c01Scenario) (run *c01Run) {
 	}
 
 	long := 20 * time.Second
+	inputWait := 6 * time.Second
 	t0 := time.Now()
 	lap := func(what string) {
 		if os.Getenv("VERIF_E2E_TIMING") != "" {
@@ -434,8 +435,8 @@ func c01Execute(sc *c01Scenario) (run *c01Run) {
 			sentThisGen += n
 			// now and then: let the agent catch up, disturb the upstream
 			if r.Chance(1, 4) {
-				if !ag.WaitInputSeen(sentThisGen-len(conns), long) { // the last record of a connection may wait for the flush
-					run.problem("c01:input-stuck", "input counters do not advance")
+				if !ag.WaitInputSeen(sentThisGen-len(conns), inputWait) { // the last record of a connection may wait for the flush
+					run.problem("c01:input-stuck", fmt.Sprintf("seed %d variant %d: the agent's input counters do not advance", sc.Seed, sc.Variant))
 					return
 				}
 			}
@@ -446,14 +447,24 @@ func c01Execute(sc *c01Scenario) (run *c01Run) {
 			}
 		}
 		lap("sent")
-		// all sent: the agent must have read everything before any connection is reset or the agent is stopped
-		if !ag.WaitInputSeen(sentThisGen, long) {
-			run.problem("c01:input-stuck", fmt.Sprintf("agent counted fewer than the %d records sent", sentThisGen))
+		// a connection closed with FIN right after its last byte: the agent reads everything, then sees EOF and
+		// must flush what it still buffers (FlushAll, Flush, Close); no waiting in between
+		closeMode := map[int]int{} // 0 keep open until the stop, 1 FIN at once, 2 RST after the agent has read everything
+		for _, k := range conns {
+			closeMode[k] = r.Intn(3)
+			if closeMode[k] == 1 {
+				clients[k].Close(false)
+			}
+		}
+		// all sent: the agent must have read everything before a connection is reset or the agent is stopped
+		if !ag.WaitInputSeen(sentThisGen, inputWait) {
+			run.problem("c01:input-stuck", fmt.Sprintf("seed %d variant %d generation %d: %d records were sent (connections closed with FIN or still open) but the agent's input counted only %d after %s: a record read from a connection was never handed to the parser",
+				sc.Seed, sc.Variant, g, sentThisGen, int(ag.Metric("input_passed_records_total", nil)+ag.Metric("input_dropped_records_total", nil)), inputWait))
 			return
 		}
 		for _, k := range conns {
-			if r.Chance(1, 2) {
-				clients[k].Close(r.Chance(1, 3))
+			if closeMode[k] == 2 {
+				clients[k].Close(true)
 			}
 		}
 		lap("input-seen")
